@@ -36,7 +36,8 @@ NONTEXT_ENDS = {'id', 'url', 'nodeName', 'inline', 'px', 'em', 'ex', 'pt', 'cm',
                 'alignment', 'depth', 'css', 'js', 'class', 'val', 'icon', 'text', 'style', 'mathjax_source', 'html_listing',
                 "config.html5['mathjax-url']", "config.files['output-encoding']", 'output-encoding', "context.terms['proof']",
                 'nothing', 'width', 'height', 'len', 'enabled', 'default', 'xml_listing', 'name', 'category', 'position', 'thmName'}
-JINJA_FILTERS = {'e': 'escape', 'escape': 'escape', 'striptags': 'striptags', 'safe': 'safe', 'trim': 'keep', 'lower': 'keep', 'upper': 'keep',
+JINJA_FILTERS = {'e': 'escape', 'escape': 'escape', 'forceescape': 'forceescape', 'striptags': 'striptags', 'unescape': 'unescape',
+                 'safe': 'safe', 'trim': 'keep', 'lower': 'keep', 'upper': 'keep',
                  'int': 'num', 'length': 'num'}
 # calls of macros defined in the templates themselves (their bodies are scanned like any other template text)
 JINJA_MACRO_CALL = re.compile(r'^(icon|tocEntry|isActive|isCurrent|loop|caller)\s*\(.*\)$', re.S)
@@ -103,13 +104,28 @@ def classify_jinja(expr):
     else:
         alts = [a.strip() for a in re.split(r'\s+or\s+', base)]
         cls = join_classes([classify_path(a, '.') for a in alts])
+    # the filters apply left to right; what matters is the state of the string when it is written:
+    #   escape      turns a plain string into an escaped one - but is a no-op on a value already marked safe (Markup)
+    #   striptags   Markup(...).striptags() removes tags AND un-escapes entities: whatever came before, the result is raw text
+    #   unescape    the same for entities only
+    #   safe        marks the value as Markup without changing it: a later escape does nothing; after an escape it is treated as
+    #               raw as well (conservative: nothing but escape may be the last word on document text)
+    marked_safe = False
     for a in acts:
-        if a == 'striptags':
-            cls = 'KRaw' if cls in ('KNode', 'KRaw', 'KArg') else cls        # Markup.striptags() also unescapes
+        textual = cls in ('KNode', 'KRaw', 'KArg', 'KEscaped')
+        if a in ('striptags', 'unescape'):
+            cls = 'KRaw' if textual else cls
+            marked_safe = False
         elif a == 'escape':
-            cls = 'KEscaped' if cls in ('KNode', 'KRaw', 'KArg', 'KEscaped') else cls
+            if textual and not marked_safe:
+                cls = 'KEscaped'
+        elif a == 'forceescape':
+            cls = 'KEscaped' if textual else cls
+            marked_safe = False
         elif a == 'safe':
-            pass
+            if cls == 'KEscaped':
+                cls = 'KRaw'
+            marked_safe = True
         elif a == 'num':
             cls = 'KNonText'
     return cls
